@@ -253,3 +253,54 @@ impl RecvHandler {
             .unwrap_or_else(|e| warn!(error = %e,"Could not send packet to handler"));
     }
 }
+
+#[cfg(feature = "verif-hooks")]
+impl RecvHandler {
+    /// Verification hook: a `RecvHandler` fed from a channel instead of a UDP socket. Every
+    /// injected datagram goes through the unmodified `handle_inbound`.
+    pub(crate) async fn spawn_virtual(
+        config: RecvHandlerConfig,
+        mut inject: mpsc::Receiver<(SocketAddr, Vec<u8>)>,
+    ) -> std::io::Result<(mpsc::Receiver<RecvPacket>, oneshot::Sender<()>)> {
+        let (exit_sender, mut exit) = oneshot::channel();
+        let RecvHandlerConfig {
+            filter_config,
+            ban_duration,
+            executor,
+            recv,
+            second_recv,
+            local_node_id,
+            protocol_identity,
+            expected_responses,
+        } = config;
+        let (handler, handler_recv) = mpsc::channel(30);
+        let (_unused_exit_tx, unused_exit) = oneshot::channel();
+        let mut recv_handler = RecvHandler {
+            recv,
+            second_recv,
+            expected_responses,
+            filter: Filter::new(filter_config, ban_duration),
+            node_id: local_node_id,
+            protocol_identity,
+            handler,
+            exit: unused_exit,
+        };
+        executor.spawn(Box::pin(async move {
+            let _keep = _unused_exit_tx;
+            loop {
+                tokio::select! {
+                    Some((src, data)) = inject.recv() => {
+                        // A real socket read truncates to the receive buffer.
+                        let mut buffer = [0; MAX_PACKET_SIZE];
+                        let length = data.len().min(MAX_PACKET_SIZE);
+                        buffer[..length].copy_from_slice(&data[..length]);
+                        recv_handler.handle_inbound(src, length, &buffer).await;
+                    }
+                    _ = &mut exit => return,
+                    else => return,
+                }
+            }
+        }));
+        Ok((handler_recv, exit_sender))
+    }
+}
